@@ -25,7 +25,7 @@ ASSUMPTIONS = [
     "expressions from a 5-element alphabet; layouts L(5,3) / L(6,3)",
 ]
 BOUND = {
-    "quick": "second entities rows without a list name (4 shapes) and 5 omit_instanceID / instance_name / audit settings for all 16 combinations; 16 combinations x 5 expressions x 7 dataset names x 3 sheet shapes; L(5,3) x save_to subsets <=2 x 4 combinations; 7 save_to names x 5 placements",
+    "quick": "save_to on loop / audit rows and on questions whose type contains the words group / repeat; second entities rows without a list name (4 shapes) and 5 omit_instanceID / instance_name / audit settings for all 16 combinations; 16 combinations x 5 expressions x 7 dataset names x 3 sheet shapes; L(5,3) x save_to subsets <=2 x 4 combinations; 7 save_to names x 5 placements",
     "thorough": "same table; L(6,3) x save_to subsets <=2 x 6 combinations",
 }
 
@@ -70,7 +70,7 @@ def gen_table(tier):
 
 def gen_saveto_names(tier):
     for nm, _ in SAVETO:
-        for place in ("top", "group", "repeat", "on-group", "no-sheet"):
+        for place in ("top", "group", "repeat", "on-group", "no-sheet", "on-loop", "on-audit", "on-audit-no-sheet", "select-groups", "select-repeats", "file-groups"):
             yield {"k": "names", "st": nm, "place": place}
 
 
@@ -142,10 +142,20 @@ def build(case):
             rows[2]["save_to"] = case["st"]
         elif place == "on-group":
             rows[1]["save_to"] = case["st"]
+        elif place in ("on-loop", "in-loop"):
+            lp = [{"type": "begin loop over c", "name": "lp", "label": "LP"}, {"type": "text", "name": "lq", "label": "LQ"}, {"type": "end loop"}]
+            lp[0 if place == "on-loop" else 1]["save_to"] = case["st"]
+            rows += lp
+        elif place.startswith("on-audit"):
+            rows.append({"type": "audit", "name": "audit", "save_to": case["st"]})
+        elif place in ("select-groups", "select-repeats", "file-groups"):
+            # question types that merely contain the words group / repeat
+            ty = {"select-groups": "select_one groups", "select-repeats": "select_multiple repeats", "file-groups": "select_one_from_file grouped.csv"}[place]
+            rows.append({"type": ty, "name": "sg", "label": "SG", "save_to": case["st"]})
         else:
             rows += [{"type": "begin repeat", "name": "r", "label": "R"}, {"type": "text", "name": "qr", "label": "QR", "save_to": case["st"]}, {"type": "end repeat"}]
-        wb = {"survey": rows}
-        if place != "no-sheet":
+        wb = {"survey": rows, "choices": [{"list_name": ln, "name": "x", "label": "X"} for ln in ("c", "groups", "repeats")]}
+        if not place.endswith("no-sheet"):
             wb["entities"] = [{"dataset": "trees", "label": "'l'"}]
         return wb, None
     forest = forest_from_json(case["f"])
@@ -176,7 +186,7 @@ def expect_reject(case, nodes):
         return not (table_valid(eid, cif, uif, lab) and ds_ok and case["shape"] == "one")
     if case["k"] == "names":
         ok = dict(SAVETO)[case["st"]]
-        return not (ok and case["place"] in ("top", "group"))
+        return not (ok and case["place"] in ("top", "group", "select-groups", "select-repeats", "file-groups", "on-audit"))
     for i in case["sub"]:
         if nodes[i]["kind"] != "q" or repeat_ancestors(nodes, i):
             return True
@@ -296,7 +306,7 @@ def check_one(case):
                 viol.append((f"meta-children:{st}", f"got {kids} want {want_kids}"))
     elif case["k"] == "names":
         check_entity(obs, out.xform, [0, 0, 0, 1], "'l'", "trees", viol)
-        saves = {"/data/q" if case["place"] == "top" else "/data/g/qg": case["st"]}
+        saves = {{"top": "/data/q", "group": "/data/g/qg", "on-audit": "/data/meta/audit"}.get(case["place"], "/data/sg"): case["st"]}
     else:
         check_entity(obs, out.xform, case["bits"], "${q}", "trees", viol)
         saves = {"/" + "/".join(nodes[i]["path"]): f"p{i}" for i in case["sub"]}
